@@ -21,7 +21,7 @@ from .. import scen
 
 FAMILY["C12"] = {"First", "ArgMax", "Point", "Inside", "Count", "DgiCount", "BestValue", "BestIsTrial", "BestAtPoint", "BestPresent",
                  "SnapCount", "SnapLinks", "SnapOrder", "SnapZ", "SnapHolder", "SnapDelta", "SnapImage", "SnapEnds", "SnapIter",
-                 "ZLogged", "YLogged", "SameHolder", "Accuracy", "StopLate", "StopEarly", "SolveReturns", "NoIntExc", "UnexpectedEvaluation"}
+                 "ZLogged", "YLogged", "Accuracy", "StopLate", "StopEarly", "SolveReturns", "NoIntExc", "UnexpectedEvaluation"}
 
 
 def multi_cfg(spec="Spec", solvers=(1, 2), vals=("0", "1"), limit=4, eps="1/8", maxcalls=2, maxbatch=2, maxtrials=4, shared=False,
@@ -178,8 +178,9 @@ class Group:
             lists.append(id(sol))
             if run.solver.searchData.GetCount() > 0:
                 for it in run.solver.searchData:
-                    holders.append(id(it.functionValues[0]))
-                    holders.append(id(it.functionValues))
+                    if it.GetIndex() >= 0:           # evaluated trials only (an unevaluated end item may legitimately carry a shared sentinel)
+                        holders.append(id(it.functionValues[0]))
+                        holders.append(id(it.functionValues))
             runs += [run, solo]
         pairs.add("DistinctObjects", "distinct", _ordinals(lists), [], {"schedule": tag, "objects": "Solution / bestTrials list objects of all solvers"})
         pairs.add("DistinctObjects", "distinct", _ordinals(holders), [], {"schedule": tag, "objects": "value holders of all items of all solvers"})
